@@ -2,3 +2,5 @@ import MtailVerif.Props.C15
 #print axioms MtailVerif.C15.cr_test_shape
 #print axioms MtailVerif.C15.framing_chunk_independent
 #print axioms MtailVerif.C15.framing_any_two_chunkings
+#print axioms MtailVerif.C15.buffer_shape
+#print axioms MtailVerif.C15.every_read_is_offered_room
